@@ -98,6 +98,53 @@ def eval_api(case):
                 transitions=n)
 
 
+# ---- (a') enums sharing a bare name in different interfaces, looked up one after the other ----
+
+def gen_same_name_pairs(tier):
+    tp = top()
+    by_name = {}
+    for iface, cands in sorted(tp.items()):
+        d = cands[0]
+        for mname, args in d.messages.items():
+            if (iface, mname) == ('wl_registry', 'bind'):
+                continue
+            for idx, (an, at, ai, ae) in enumerate(args):
+                e = protoxml.HAND.get((iface, mname, an), ae)
+                if e and len(cands) == 1:
+                    by_name.setdefault(e.split('.')[-1], []).append((iface, mname, idx, e))
+    for name, uses in sorted(by_name.items()):
+        ifaces = sorted({u[0] for u in uses})
+        if len(ifaces) < 2:
+            continue
+        reps = [next(u for u in uses if u[0] == i) for i in ifaces][:6]
+        for a in reps:
+            for b in reps:
+                if a[0] != b[0]:
+                    yield {'first': list(a), 'then': list(b)}
+
+
+def eval_same_name_pair(case):
+    """look up every entry value through the first use, then through the second: each answer is that interface's own"""
+    from core.wl import protocol
+    import importlib
+    tp = top()
+    V = []
+    n = 0
+    a, b = case['first'], case['then']
+    ea = protoxml.enum_candidates(tp, a[0], a[3])
+    eb = protoxml.enum_candidates(tp, b[0], b[3])
+    vals = enum_values(ea + eb, 'quick')[:40]
+    for v in vals:
+        protocol.look_up_enum(a[0], a[1], a[2], v)
+        got = protocol.look_up_enum(b[0], b[1], b[2], v)
+        n += 2
+        if got not in [protoxml.labels(en, v) for en in eb]:
+            V.append(Violation('protocol.enum_of_another_interface', case, {'value': v, 'observed': got,
+                                                                            'expected_one_of': [protoxml.labels(en, v) for en in eb]}))
+            break
+    return Eval(V, outcome=len(V), nontrivial=True, transitions=n)
+
+
 # ---- (b) output lines -------------------------------------------------------------
 
 def synth_lines(iface, d, tier):
@@ -403,6 +450,9 @@ def run(run, tier, seed):
                        bound={'interfaces': len(ifaces)})
     res.states = res.transitions
     run.add_part('display', res)
+    res = explore.prod(lambda: gen_same_name_pairs(tier), eval_same_name_pair, seed=seed)
+    res.states = res.transitions
+    run.add_part('same_name_enums', res)
     res = explore.prod(lambda: iter([{'unknown': True}]), eval_unknown, workers=1)
     run.add_part('unknown_interface', res)
     res = explore.prod(lambda: gen_precedence(tier), eval_precedence, workers=1, seed=seed,
@@ -425,6 +475,8 @@ def replay(case):
     sut.ensure_protocols()
     if 'order' in case:
         return eval_precedence(case).viols
+    if 'first' in case:
+        return eval_same_name_pair(case).viols
     if 'unknown' in case:
         return eval_unknown(case).viols
     if 'message' in case:
